@@ -36,6 +36,21 @@ void t_probe(Ctx& c) { k_stable_partition<KBidi>(c); }
 #elif C06_PROBE == 5
     #define C06_PROBE_NAME "shift_right_fwd"
 void t_probe(Ctx& c) { k_shift_right<KFwd>(c); }
+#elif C06_PROBE == 6
+    #define C06_PROBE_NAME "swap_array"
+// etl::swap(T(&)[N], T(&)[N])
+void t_probe(Ctx& c)
+{
+    std::size_t const n = c.a.size();
+    if (n == 4) {
+        Trial t(c, "array", "swap(T(&)[N],T(&)[N])", Pres::exact, "", 3, "-");
+        Range<El> r(c.a, Pres::exact, true);
+        using A2 = El[2];
+        t.call([&] { etl::swap(*reinterpret_cast<A2*>(r.lo), *reinterpret_cast<A2*>(r.lo + 2)); });
+        t.seq("arrays", r.get(), Seq{c.a[2], c.a[3], c.a[0], c.a[1]});
+        t.done();
+    }
+}
 #endif
 
 Test const kTests[]         = {{C06_PROBE_NAME, t_probe}};
